@@ -182,7 +182,7 @@ term_re = re.compile(
             (?: \< \s* (?P<_ERROR>     [_A-Za-z][_A-Za-z0-9]* ) \s* \> )|
             (?:        (?P<_VARIABLE>  [_A-Za-z][_A-Za-z0-9]* )        )
         )
-        (?: \[ \s* (?P<INDEX> .*? ) \s* \] )?
+        (?: \s* \[ \s* (?P<INDEX> .*? ) \s* \] )?
     ''',
     re.VERBOSE,
 )  # fmt: skip
@@ -490,7 +490,8 @@ def parse_terms(expression: str) -> List[Term]:
             # 4. Anything else: Convert to `int`
             else:
                 try:
-                    index = int(index_)
+                    # Allow whitespace between a sign and the digits (as Python does)
+                    index = int(re.sub(r'^([+-])\s+', r'\1', index_))
                 except ValueError as e:
                     raise ParserError(
                         f"Unable to parse index '{index_}' of "
